@@ -227,6 +227,17 @@ where
     R::U
 }
 
+/// sets / clears the ID flag (bit 21) of the real RFLAGS: user mode may toggle it, nothing depends on it
+fn set_id_flag(on: bool) {
+    unsafe {
+        if on {
+            core::arch::asm!("pushfq", "or qword ptr [rsp], 0x200000", "popfq");
+        } else {
+            core::arch::asm!("pushfq", "and qword ptr [rsp], -0x200001", "popfq");
+        }
+    }
+}
+
 fn call(fid: u64, a: &[u64], oc_unused: bool) -> R {
     let _ = oc_unused;
     unsafe {
@@ -333,10 +344,25 @@ fn call(fid: u64, a: &[u64], oc_unused: bool) -> R {
             (300, []) => R::Z(mxcsr::read().bits() as u64),
             (301, [v]) => { mxcsr::write(MxCsr::from_bits(u32::try_from(*v).unwrap()).unwrap()); R::U }
             (302, [t]) => { mxcsr::update(|f| f.toggle(MxCsr::from_bits_truncate(*t as u32))); R::U }
-            (310, []) => R::Z(interrupts::are_enabled() as u64),
+            (310, []) => {
+                // the answer may depend on bit 9 only: also with another (harmless, user-writable) RFLAGS bit set
+                let plain = interrupts::are_enabled();
+                set_id_flag(true);
+                let with_id = interrupts::are_enabled();
+                set_id_flag(false);
+                if plain != with_id { panic!("are_enabled depends on RFLAGS bits other than IF"); }
+                R::Z(plain as u64)
+            }
             (311, []) => { interrupts::enable(); R::U }
             (312, []) => { interrupts::disable(); R::U }
-            (313, tree) => { let mut obs = vec![]; let mut it = tree.iter(); run_tree(&mut it, &mut obs, 0); R::L(obs) }
+            (313, tree) => {
+                // every second shape runs with the ID flag (bit 21) set in the real RFLAGS: only bit 9 may matter
+                let id = tree.len() % 2 == 0;
+                if id { set_id_flag(true); }
+                let mut obs = vec![]; let mut it = tree.iter(); run_tree(&mut it, &mut obs, 0);
+                if id { set_id_flag(false); }
+                R::L(obs)
+            }
             (314, []) => { interrupts::enable_and_hlt(); R::U }
             (315, []) => { x86_64::instructions::hlt(); R::U }
             (320, [w, port, kind]) => {
@@ -371,7 +397,10 @@ fn call(fid: u64, a: &[u64], oc_unused: bool) -> R {
                     let mut d = PortGeneric::<T, A>::new(p2);
                     d.clone_from(&a);
                     // the port number of the clone, read through Debug-free means: equality with every port is decided by the number
-                    vec![(a == b) as u64, (c == a && d == a) as u64, if c == PortGeneric::<T, A>::new(p1) && d == PortGeneric::<T, A>::new(p1) { p1 as u64 } else { 0xffff_ffff }]
+                    // `!=` must be the negation of `==`, whichever port is the larger one
+                    let eq = a == b;
+                    if (a != b) == eq || (b != a) == eq || (b == a) != eq { return vec![0xbad, 0, 0]; }
+                    vec![eq as u64, (c == a && d == a) as u64, if c == PortGeneric::<T, A>::new(p1) && d == PortGeneric::<T, A>::new(p1) { p1 as u64 } else { 0xffff_ffff }]
                 }
                 let (p1, p2) = (*p1 as u16, *p2 as u16);
                 R::L(match (w, kind) {
